@@ -11,7 +11,7 @@ VAL = {'C': 4, 'N': 3, 'O': 2, 'S': 2, 'P': 3, 'F': 1, 'Cl': 1, 'Br': 1}
 SYM = {0: '.', 1: '', 2: '=', 3: '#', 4: '$', 1.5: ''}
 
 
-def rnd_mol(rng, n, aromatic_p=0.3, charged_p=0.1):
+def rnd_mol(rng, n, aromatic_p=0.3, charged_p=0.1, pyrrole_p=0.0):
     """valence-respecting random molecule over the organic subset.
     nodes: element, charge, aromatic, h (hydrogens required); edges: order (1,2,3, 1.5 in aromatic rings)"""
     g = nx.Graph()
@@ -28,7 +28,19 @@ def rnd_mol(rng, n, aromatic_p=0.3, charged_p=0.1):
         free[i] = v
         return i
 
-    if rng.random() < aromatic_p and n >= 6:
+    if pyrrole_p and rng.random() < pyrrole_p and n >= 5:
+        # pyrrole-type five-membered ring: [nH] contributes its lone pair, the ring is aromatic
+        # (written in lower case; pysmiles reports it kekulised — no delocalisation-induced equivalence — so the
+        # reference carries the localised orders N-C=C-C=C-N and `lower` only steers the rendering)
+        ring = [add('N')] + [add('C') for _ in range(4)]
+        for (a, b), o in zip(zip(ring, ring[1:] + ring[:1]), [1, 2, 1, 2, 1]):
+            g.add_edge(a, b, order=o, pyrrole_ring=True)
+        for r in ring:
+            g.nodes[r]['lower'] = True
+            free[r] -= 3
+        g.nodes[ring[0]]['pyrrole'] = True
+        free[ring[0]] = 1          # the hydrogen on the nitrogen; it is written ([nH]) and never substituted
+    elif rng.random() < aromatic_p and n >= 6:
         ring = [add(rng.choice(['C', 'C', 'C', 'N'])) for _ in range(6)]
         ns = [r for r in ring if g.nodes[r]['element'] == 'N']
         for r in ns[1:]:
@@ -42,7 +54,7 @@ def rnd_mol(rng, n, aromatic_p=0.3, charged_p=0.1):
     else:
         add('C')
     while len(g) < n:
-        cands = [i for i in g if free[i] >= 1]
+        cands = [i for i in g if free[i] >= 1 and not g.nodes[i].get('pyrrole')]
         if not cands:
             break
         a = rng.choice(cands)
@@ -61,7 +73,7 @@ def rnd_mol(rng, n, aromatic_p=0.3, charged_p=0.1):
         free[a] -= o
         free[b] -= o
     for _ in range(rng.choice([0, 0, 1, 1, 2])):
-        cands = [i for i in g if free[i] >= 1 and not g.nodes[i]['aromatic']]
+        cands = [i for i in g if free[i] >= 1 and not g.nodes[i]['aromatic'] and not g.nodes[i].get('pyrrole')]
         rng.shuffle(cands)
         done = False
         for a in cands:
@@ -82,19 +94,25 @@ def rnd_mol(rng, n, aromatic_p=0.3, charged_p=0.1):
 WEIGHT_TEXTS = ['0', '0.5', 'w=2', 'w=0', '0.0', '1', 'w=0.25;tag=t']
 
 
+def low(d):
+    return bool(d['aromatic'] or d.get('lower'))
+
+
 def atom_str(d, anno=None):
     el = d['element']
     if anno:
-        h = d['h'] if (d['charge'] != 0 or (d['aromatic'] and el != 'C')) else 0
+        h = d['h'] if (d['charge'] != 0 or (low(d) and el != 'C')) else 0
         hs = '' if h == 0 else ('H' if h == 1 else 'H%d' % h)
         cs = '' if d['charge'] == 0 else ('+' if d['charge'] > 0 else '-')
-        return '[%s%s%s;%s]' % (el.lower() if d['aromatic'] else el, hs, cs, anno)
+        return '[%s%s%s;%s]' % (el.lower() if low(d) else el, hs, cs, anno)
+    if d.get('pyrrole'):
+        return '[nH]'
     if d['charge'] == 0:
-        return el.lower() if d['aromatic'] else el
+        return el.lower() if low(d) else el
     h = d['h']
     hs = '' if h == 0 else ('H' if h == 1 else 'H%d' % h)
     cs = '+' if d['charge'] > 0 else '-'
-    return '[%s%s%s]' % (el.lower() if d['aromatic'] else el, hs, cs)
+    return '[%s%s%s]' % (el.lower() if low(d) else el, hs, cs)
 
 
 def render_frag(rng, g, nodes, desc, atom_text=None, anno_p=0.0):
@@ -145,6 +163,8 @@ def render_frag(rng, g, nodes, desc, atom_text=None, anno_p=0.0):
                 if first:
                     opened.add(rid[e])
                 sym = SYM[o] if (first and o in (2, 3)) else ''
+                if g.edges[tuple(e)].get('pyrrole_ring'):
+                    sym = ''            # bonds of a ring written in lower case carry no symbol
                 rs += sym + mark(rid[e])
         d = dstr(u)
         kids = tree[u]
@@ -169,7 +189,9 @@ def render_frag(rng, g, nodes, desc, atom_text=None, anno_p=0.0):
         for i, v in enumerate(kids):
             o = g.edges[u, v]['order']
             sym = SYM[o]
-            if o == 1 and g.nodes[u]['aromatic'] and g.nodes[v]['aromatic']:
+            if g.edges[u, v].get('pyrrole_ring'):
+                sym = ''
+            elif o == 1 and low(g.nodes[u]) and low(g.nodes[v]):
                 sym = '-'
             body = sym + emit(v)
             s += '(' + body + ')' if i < nbr else body
@@ -286,7 +308,7 @@ def cut_description(rng, g, nfrag, kinds=('$', '><'), share_p=0.0, label_p=1.0, 
             a, b = b, a               # which end is copied into the other fragment when the bond is replaced by sharing
         lab += 1
         L = 'L%d' % lab if rng.random() < label_p else ''
-        oo = 1 if o == 1.5 else o
+        oo = 1 if (o == 1.5 or g.edges[a, b].get('pyrrole_ring')) else o
         if rng.random() < share_p:
             # fragment of `a` gets a copy b' of b, bonded to a; b' and b carry the '!' pair
             bp = len(ext)
@@ -321,6 +343,7 @@ def cut_description(rng, g, nfrag, kinds=('$', '><'), share_p=0.0, label_p=1.0, 
         sub_nodes = members[i]
         frag_text[i] = render_frag(rng, ext.subgraph(sub_nodes).copy(), sub_nodes, desc, anno_p=anno_p)
     cut_description.last_shared_kinds = shared_kinds
+    cut_description.last_pyrrole_cut = any(d.get('pyrrole_ring') and part[a] != part[b] for a, b, d in g.edges(data=True))
     return base, frag_text, part, nshared
 
 
@@ -344,10 +367,10 @@ def graph_to_json(g):
 
 
 def cut_case(rng, nmin=3, nmax=12, share_p=0.0, virtual=0, aromatic_p=0.25, label_p=1.0,
-             kinds=('$', '><'), anno_p=0.0):
+             kinds=('$', '><'), anno_p=0.0, pyrrole_p=0.0):
     """one C01-style case: a molecule, the uncut description and a cut description"""
     while True:
-        g = rnd_mol(rng, rng.randint(nmin, nmax), aromatic_p=aromatic_p)
+        g = rnd_mol(rng, rng.randint(nmin, nmax), aromatic_p=aromatic_p, pyrrole_p=pyrrole_p)
         nf = rng.randint(1, min(5, len(g)))
         base, frag_text, part, nshared = cut_description(rng, g, nf, kinds=kinds, share_p=share_p, label_p=label_p, anno_p=anno_p)
         if base.number_of_edges() and max(o for *_, o in base.edges(data='order')) > 4:
@@ -357,7 +380,9 @@ def cut_case(rng, nmin=3, nmax=12, share_p=0.0, virtual=0, aromatic_p=0.25, labe
     base_str, appearance = render_base(rng, base, names, virtual=virtual)
     frags = ','.join('#F%d=%s' % (i, frag_text[i]) for i in rng.sample(range(nf), nf))
     whole = '{[#M]}.{#M=' + render_frag(rng, g, list(g), {}) + '}'
-    return {'kind': 'cut', 'shared_kinds': sorted(set(cut_description.last_shared_kinds)), 's': base_str + '.{' + frags + '}', 'whole': whole,
+    return {'kind': 'cut', 'shared_kinds': sorted(set(cut_description.last_shared_kinds)),
+            'pyrrole_ring_cut': cut_description.last_pyrrole_cut, 'has_pyrrole': any(d.get('pyrrole') for _, d in g.nodes(data=True)),
+            's': base_str + '.{' + frags + '}', 'whole': whole,
             'nfrag': nf, 'nshared': nshared, 'natoms': len(g), 'virtual': virtual,
             'mol': {'n': [[k, d['element'], d['charge'], d['h'], d['aromatic']] for k, d in g.nodes(data=True)],
                     'e': [[a, b, o] for a, b, o in g.edges(data='order')]},
